@@ -294,7 +294,23 @@ func c05(c *an.Ctx) {
 			cs := f.Find(call(r, RL+":RaftDiskStorage.CreateSnapshot"))
 			r.AddSites(cs.Len())
 			for _, s := range cs.List {
-				arg := f.Canon(s.Node.(*ast.CallExpr).Args[0])
+				a0 := s.Node.(*ast.CallExpr).Args[0]
+				arg := f.Canon(a0)
+				// (an accessor of the snapshotter that returns the field, e.g. under its mutex, is the field)
+				if id, ok := ast.Unparen(a0).(*ast.Ident); ok {
+					if v, ok := f.Info.Uses[id].(*types.Var); ok {
+						if def := singleAssignRHS(f, v); def != nil {
+							a0 = def
+						}
+					}
+				}
+				if ce, ok := ast.Unparen(a0).(*ast.CallExpr); ok && len(ce.Args) == 0 {
+					if sel, ok := ce.Fun.(*ast.SelectorExpr); ok && f.Canon(sel.X) == "recv.SnapShotter" {
+						if g := c.P.Src(an.Callee(f.Info, ce)); g != nil && returnsOnlyField(c, g, "recv.CommittedIndex") {
+							arg = "recv.SnapShotter.CommittedIndex"
+						}
+					}
+				}
 				if arg != "recv.SnapShotter.CommittedIndex" {
 					r.Fail(f.Name+": snapshot index", c.P.Pos(s.Node.Pos()), "the raft snapshot index is %s, not SnapShotter.CommittedIndex", arg)
 				}
@@ -688,4 +704,51 @@ func c05toleranceTimer(c *an.Ctx) {
 		return
 	}
 	f.AfterEdgesMustPass(r, edges, reset, "all members healthy ⇒ tolerateStartTime reset before returning")
+}
+
+// singleAssignRHS returns the right-hand side of the only assignment to a local variable.
+func singleAssignRHS(f *an.Fn, v *types.Var) ast.Expr {
+	var rhs ast.Expr
+	n := 0
+	ast.Inspect(f.Body, func(m ast.Node) bool {
+		as, ok := m.(*ast.AssignStmt)
+		if !ok || len(as.Lhs) != len(as.Rhs) {
+			return true
+		}
+		for i, l := range as.Lhs {
+			if id, ok := l.(*ast.Ident); ok && (f.Info.Defs[id] == v || f.Info.Uses[id] == v) {
+				n++
+				rhs = as.Rhs[i]
+			}
+		}
+		return true
+	})
+	if n == 1 {
+		return rhs
+	}
+	return nil
+}
+
+// returnsOnlyField: every return of the (result-bearing) function returns exactly the expression
+// whose canonical form is field — a plain accessor, possibly under a lock.
+func returnsOnlyField(c *an.Ctx, src *an.FuncSrc, field string) bool {
+	g := c.P.Fn(src)
+	if g == nil {
+		return false
+	}
+	n := 0
+	ok := true
+	ast.Inspect(g.Body, func(m ast.Node) bool {
+		if _, isLit := m.(*ast.FuncLit); isLit {
+			return false
+		}
+		if rs, isRet := m.(*ast.ReturnStmt); isRet {
+			n++
+			if len(rs.Results) != 1 || g.Canon(rs.Results[0]) != field {
+				ok = false
+			}
+		}
+		return true
+	})
+	return ok && n > 0
 }
